@@ -72,7 +72,13 @@ def check_belt(h):
         h.violate("C12", "offer-order", f"items entered in order {[r.name for r in recs]} but reached the exit in order {[r.name for r in offs]}", feat=lab, extra=octx)
     for a, b in zip(recs, recs[1:]):
         if b.put_t - a.put_t < slot - EPS:
-            h.violate("C12", "spacing", f"{b.name} entered at {b.put_t}, only {b.put_t - a.put_t} after {a.name} (one item length of travel = {slot})", feat=lab)
+            # circumstances: was the belt empty when the first of the pair entered (nothing put before it is still inside)?
+            inside_before = sum(1 for q in recs if q.put_seq < a.put_seq and (q.got_t is None or q.got_t > a.put_t))
+            ta = next((x[4] for x in h.hist if x[0] == "put" and x[3] == a.name), None)
+            tb = next((x[4] for x in h.hist if x[0] == "put" and x[3] == b.name), None)
+            same_grant_instant = ta in h.toks and tb in h.toks and h.toks[ta].granted_at == h.toks[tb].granted_at
+            h.violate("C12", "spacing", f"{b.name} entered at {b.put_t}, only {b.put_t - a.put_t} after {a.name} (one item length of travel = {slot})", feat=lab,
+                      extra=f",belt-{'empty' if inside_before == 0 else 'non-empty'}-before-the-pair,reservations-granted-{'in-one-instant' if same_grant_instant else 'at-different-instants'}")
             break
     for r in recs:
         if r.avail_t is not None and r.avail_t < r.put_t + T - EPS:
